@@ -11,9 +11,13 @@ func init() {
 	registerProperty(&Property{ID: "C12", Rules: []string{"LK-ORDER", "LK-SELF", "LK-PAIR", "LK-HOLD", "LK-TOKEN", "LK-FLAG"}, Decided: "lock order.", NotDecided: "-"})
 	registerProperty(&Property{ID: "C11", Rules: []string{"LK-ATOMIC", "LK-RMW", "LK-COPY", "TB-DEEP"}, Decided: "atomicity.", NotDecided: "-"})
 	registerProperty(&Property{ID: "C08", Rules: []string{"LK-CTA", "TS-RANGE", "TS-CANCEL", "TS-REFUSE"}, Decided: "cta.", NotDecided: "-"})
-	registerProperty(&Property{ID: "C09", Rules: []string{"TS-CONTENT-FIRST"}, Decided: "x", NotDecided: "-"})
-	registerProperty(&Property{ID: "C01", Rules: []string{"TS-VERIFY", "TS-HASHBYTES"}, Decided: "x", NotDecided: "-"})
+	registerProperty(&Property{ID: "C20", Rules: []string{"TS-CLEANUP"}, Decided: "x", NotDecided: "-"})
+	registerProperty(&Property{ID: "C17", Rules: []string{"SH-IDEMPOTENT"}, Decided: "x", NotDecided: "-"})
+	registerProperty(&Property{ID: "C06", Rules: []string{"SH-PASS-LOOP"}, Decided: "x", NotDecided: "-"})
+	registerProperty(&Property{ID: "C10", Rules: []string{"TS-SAVE", "FS-INIT", "FS-CLEANUP"}, Decided: "x", NotDecided: "-"})
+	registerProperty(&Property{ID: "C09", Rules: []string{"FS-INDEX", "FS-BLOB", "FS-TEMP", "TS-CONTENT-FIRST"}, Decided: "x", NotDecided: "-"})
+	registerProperty(&Property{ID: "C01", Rules: []string{"TS-VERIFY", "TS-HASHBYTES", "SH-DIGESTER"}, Decided: "x", NotDecided: "-"})
 	registerProperty(&Property{ID: "C02", Rules: []string{"TS-ACK"}, Decided: "x", NotDecided: "-"})
-	registerProperty(&Property{ID: "C14", Rules: []string{"TS-ROGUARD", "TB-ROUTE"}, Decided: "x", NotDecided: "-"})
+	registerProperty(&Property{ID: "C14", Rules: []string{"FS-WHO", "FS-RO", "TS-ROGUARD", "TB-ROUTE"}, Decided: "x", NotDecided: "-"})
 	registerProperty(&Property{ID: "C16", Rules: []string{"TB-RESERVED"}, Decided: "reserved names.", NotDecided: "-"})
 }
